@@ -8,7 +8,14 @@
 (* (exact nearest integer; both neighbours only at an exact .5 tie).         *)
 (* The property's invariants are checked on the model state the trace drives *)
 (* and, where they speak about the transaction itself (inputs spent, outputs *)
-(* above dust), on the recorded tx.                                          *)
+(* above dust, the fee it pays = inputs - outputs over its own weight), on   *)
+(* the recorded tx.                                                          *)
+(* A Req / Retry line is what the real UtxoSweeper.sweep built and handed to *)
+(* the publisher (maxrate, budget, deadline, sopt of the BumpRequest) next   *)
+(* to what it was built from: the sweeper's configuration (cfgvb, sat/vb)    *)
+(* and the input set (per-input budgets, deadlines, rates offered before,    *)
+(* unconfirmed-parent infos as [weight, fee]).  The Sweep* invariants and    *)
+(* RegroupStart compare the two.                                             *)
 EXTENDS SweepFee, Json
 VARIABLE l
 
@@ -26,9 +33,16 @@ Reset == /\ Is("Reset")
 (* the largest per-input starting rate of the set (0: none) *)
 SeqMax(q) == IF Len(q) = 0 THEN 0 ELSE CHOOSE m \in {q[i] : i \in 1..Len(q)} : \A j \in 1..Len(q) : q[j] <= m
 
+SeqSum(q) == LET F[i \in 0..Len(q)] == IF i = 0 THEN 0 ELSE F[i - 1] + q[i] IN F[Len(q)]
+(* the deadline attached to the inputs (-1: none / not the same for all) *)
+SeqSame(q) == IF Len(q) > 0 /\ \A i \in 1..Len(q) : q[i] = q[1] THEN q[1] ELSE -1
+Col(q, k) == [i \in 1..Len(q) |-> q[i][k]]
+
 ReqOf(t) == [budget |-> t.budget, weight |-> t.weight, maxrate |-> t.maxrate, relay |-> t.relay,
              totalin |-> t.totalin, reqout |-> t.reqout, dust |-> t.dust, deadline |-> t.deadline,
-             sopt |-> t.sopt, est |-> t.est, prevmax |-> SeqMax(t.prevs)]
+             sopt |-> t.sopt, est |-> t.est, prevmax |-> SeqMax(t.prevs),
+             cfgvb |-> t.cfgvb, inbudget |-> SeqSum(t.budgets), indeadline |-> SeqSame(t.deadlines),
+             pweight |-> SeqSum(Col(t.parents, 1)), pfee |-> SeqSum(Col(t.parents, 2))]
 
 TNext ==
   \/ Reset
@@ -86,5 +100,18 @@ TxNoDust == (Live /\ Last.a \in {"Check", "Pub"}) =>
   /\ \A k \in 1..Len(Last.outs) : Last.outs[k][1] >= Last.outs[k][2]
 TxWithinBudget == (Live /\ Last.a \in {"Check", "Pub"}) =>
   /\ Last.fee <= rq.budget
+  /\ Last.fee <= rq.inbudget
   /\ Last.rate <= rq.maxrate \/ StartTrigger
+(* ... and on the transaction as it is handed to the wallet - fee = inputs - *)
+(* outputs, over the weight of the sweep tx itself, whatever the inputs      *)
+(* carry (unconfirmed-parent info, required outputs, wallet top-ups):        *)
+(* its fee rate is no larger than the CONFIGURED maximum ...                 *)
+TxRateLeCfgMax == (Live /\ Last.a \in {"Check", "Pub"}) =>
+  \/ StartTrigger
+  \/ Last.fee <= FeeFor(CfgMax(rq), rq.weight) + AbsorbMax(rq, Last.change)
+(* ... and it pays the rate on offer (the fee function's), no more: the      *)
+(* statements about the offered rate are statements about this tx            *)
+TxPaysOfferedRate == (Live /\ Last.a \in {"Check", "Pub"} /\ ff.live) =>
+  /\ Last.fee >= FeeFor(ff.cur, rq.weight)
+  /\ Last.fee <= FeeFor(ff.cur, rq.weight) + AbsorbMax(rq, Last.change)
 =============================================================================
